@@ -6,6 +6,10 @@ pipe and over a shm-pipe.  Oracles: (1) the shm observation equals the inline ob
 arbiter/label), and what the implementation *received* (arguments, exchange inputs) equals what was sent;
 (2) region accounting through ``ShmSegment.allocator.num_allocs`` after every completed call and inside streams;
 (3) every batch the client has not released yet is compared with a private copy after each later call.
+
+1/12 of exchange calls are made through a client Protocol with one extra parameter: the server refuses the request
+while reading it, and the first input — already on its way, through shm when large — must be discarded and its region
+released (outcome ``refused_request``).
 """
 
 from __future__ import annotations
